@@ -105,6 +105,42 @@ def hdrWindow (ws : List String) : String :=
     | _, _ => "bad-op"
   | _ => "bad-op"
 
+/-- `hdr-ops cfg | ops`: `c<v>:<ei>` RecordCorrectedValue, `n<v>:<k>` RecordValues(v, k), `r<v>` RecordValue, `z` Reset;
+the result of every op (`o`/`e`) and the final histogram -/
+def hdrOps (ws : List String) : String :=
+  match sections ws with
+  | [cfg, ops] =>
+    match mkHist? cfg with
+    | none => "bad-op"
+    | some h0 =>
+      let two := fun (s : String) => match s.splitOn ":" with
+        | [a, b] => (a.toInt?, b.toInt?)
+        | _ => (none, none)
+      let step := fun (st : Option (Hist × List String)) (op : String) =>
+        match st with
+        | none => none
+        | some (h, rs) =>
+          match op.toList.head? with
+          | some 'z' => some (reset h, rs ++ ["z"])
+          | some 'r' => match (op.drop 1).toInt? with
+            | some v => match recordValue h v with
+              | some h' => some (h', rs ++ ["o"])
+              | none => some (h, rs ++ ["e"])
+            | none => none
+          | some 'n' => match two (op.drop 1).toString with
+            | (some v, some k) => match recordValues h v k with
+              | some h' => some (h', rs ++ ["o"])
+              | none => some (h, rs ++ ["e"])
+            | _ => none
+          | some 'c' => match two (op.drop 1).toString with
+            | (some v, some ei) => let r := recordCorrected h v ei; some (r.1, rs ++ [if r.2 then "o" else "e"])
+            | _ => none
+          | _ => none
+      match ops.foldl step (some (h0, [])) with
+      | some (h, rs) => s!"{joinSp rs} {histLine h}"
+      | none => "bad-op"
+  | _ => "bad-op"
+
 def hdrImport (ws : List String) : String :=
   match sections ws with
   | [cfg, vals] =>
